@@ -806,6 +806,12 @@ def worker(c):
                 if not ok:
                     break
             low = np.flatnonzero((ta2 < 0) & (ta2 < c_ref))
+            if nflex and len(low):
+                # the countdown reference treats every kinematic tree on its own; the vertex trees of a flex are coupled through the
+                # flex (edge constraints / passive elasticity) in a way the reference's grouping does not model (it is switched off for
+                # flex models two lines above as well): observed, not judged
+                P.count("flex_model_countdown_below_reference_not_judged")
+                low = []
             if len(low):
                 viol("awake-counter-below-documented-countdown", step, tree=int(low[0]), engine=int(ta2[low[0]]), ref=int(c_ref[low[0]]))
                 ok = False
